@@ -229,6 +229,8 @@ void World::finish() {
     std::string v = asim::take_violation();
     if (!v.empty()) {
         if (cfg.judge_memory || cfg.judge_hooks) violation(cfg.judge_hooks ? "hooks-ledger" : "ledger", v + " [final delete]");
+        // afail: the fault-free run of the same scenario was clean (otherwise it is not enumerated), so this is the failed call's doing
+        if (ledger_judged_from_target) violation("ledger-after-failure", v + " [final delete of what the failed call left behind]");
         discard("ledger violation outside this property's oracles: " + v);
     }
     if (!pool().intact()) {
